@@ -22,6 +22,7 @@ TraceReset == /\ IsEvent("reset")
               /\ allok' = [s \in AllServices |-> TRUE]
               /\ everok' = {}
               /\ confirmed' = 0
+              /\ maxrep' = [s \in AllServices |-> 0]
               /\ maybe' = 0
               /\ done' = "no"
 
